@@ -96,6 +96,17 @@ def gen_root_case(rng, op, w, n):
         else:
             k = rng.bits(rng.below(32) + 1)
     v = gen_radicand(rng, w, n, k if k >= 2 else 2, is_signed)
+    if name not in ROOT1_OPS and bits >= 256 and rng.chance(1, 5):
+        # longest Newton descents: a large degree k and a radicand whose bit length is just above a multiple of k, so
+        # that the initial guess 2^(bits(x)/k + 1) is about twice the root and the linear phase takes ~0.69 k steps
+        k = max(4, rng.choice([bits // m for m in range(4, 13)] + [64, 96, 100, 128, 16 + rng.below(max(1, bits // 4 - 16))])
+                + rng.below(5) - 2)
+        ubits = bits - 1 if is_signed else bits
+        mmax = max(1, (ubits - 1) // k)
+        m = rng.choice([mmax, mmax, max(1, mmax - 1), 1 + rng.below(mmax)])
+        bl = min(ubits, m * k + 1 + rng.choice([0, 0, 0, 1, 2]))
+        v = (1 << (bl - 1)) + (rng.bits(rng.below(bl - 1) + 1) if bl > 1 and rng.chance(1, 2) else rng.below(3))
+        v = min(v, (1 << ubits) - 1)
     if is_signed:
         r = rng.below(8)
         if r < 3:
@@ -423,7 +434,9 @@ RULE = ("gcd/lcm: (2^i*x*g, 2^j*y*g) with odd x,y,g, zero and equal operands, ne
         "roots: radicands >= 2^128 at every width above 128 bits ((8,17),(32,10),(64,3),(64,5),(64,17) and (64,128) in "
         "thorough) built as r^k, r^k-1, r^k+1, random bit lengths, 2^128-1/2^128/2^128+1, MAX, and below 2^128 for the "
         "primitive shortcut; degrees 0,1,2,3,4,5,7,16,17,40,63..65,127..129,255..257,BITS-1,BITS,BITS+1,2^31,u32::MAX and "
-        "random; negative radicands with odd and even degrees, MIN; shifts with amounts around digit boundaries, BITS, "
+        "random; longest Newton descents (widths >= 256 bits: degree k around BITS/4..BITS/12, 64, 96, 100, 128 and a radicand of "
+        "bit length m*k+1, so that the first guess is about twice the root and the descent takes ~0.69 k steps); "
+        "negative radicands with odd and even degrees, MIN; shifts with amounts around digit boundaries, BITS, "
         "u32::MAX; pow at the overflow boundary; mul_add at the overflow boundary; from_str_radix strings valid/invalid in "
         "radix 2..36; thorough adds all 8-bit operand pairs for gcd/lcm/div_floor/mod_floor/div_rem/is_multiple_of/abs_sub, all 8-bit radicands x degrees 0..11,255,256,u32::MAX, every third 16-bit radicand for sqrt/cbrt. "
         "Non-trivial = root of a value >= 2^128 with degree >= 2 (Newton path), gcd/lcm of two non-zero operands, a "
